@@ -114,11 +114,99 @@ def run_atheris(spec, ctx):
     ctx.nontrivial(case)
 
 
+PROBE = r"""
+import json, sys
+sys.path.insert(0, sys.argv[1])
+import corankco as ck
+import corankco.utils as cu
+texts = json.load(sys.stdin)
+for i, t in enumerate(texts):
+    print("START", i, flush=True)
+    for label, fn in (("from_string", ck.Ranking.from_string), ("of_int", cu.parse_ranking_with_ties_of_int)):
+        try:
+            fn(t)
+            out = "ok"
+        except ValueError:
+            out = "ValueError"
+        except Exception as e:
+            out = type(e).__name__
+        print("DONE", i, label, out, flush=True)
+"""
+PROBE_TIMEOUT_S = 180
+
+
+def probe_texts(texts, repo):
+    """The texts are parsed by another interpreter under a generous wall-clock bound: a scanner that loops inside C code (a
+    regular expression that backtracks without end) produces no line event and cannot be stopped in-process.
+    Returns (outcomes {index: {label: outcome}}, index of the text being parsed when the bound expired or None)."""
+    import json
+    import subprocess
+    env = dict(os.environ)
+    env.pop("VERIF_COVER", None)
+    p = subprocess.Popen([sys.executable, "-c", PROBE, repo], stdin=subprocess.PIPE, stdout=subprocess.PIPE,
+                         stderr=subprocess.DEVNULL, text=True, env=env, cwd=os.environ.get("TMPDIR", "/tmp"))
+    hung = None
+    try:
+        out, _ = p.communicate(json.dumps(texts), timeout=PROBE_TIMEOUT_S)
+    except subprocess.TimeoutExpired:
+        p.kill()
+        out, _ = p.communicate()
+        hung = -1
+    outcomes, started = {}, None
+    for line in (out or "").splitlines():
+        w = line.split()
+        if w[:1] == ["START"]:
+            started = int(w[1])
+        elif w[:1] == ["DONE"]:
+            outcomes.setdefault(int(w[1]), {})[w[2]] = w[3]
+    if hung is not None:
+        hung = started
+    return outcomes, hung, p.returncode
+
+
+def long_malformed_texts(rng):
+    """rankings of 26-60 buckets printed correctly, then damaged near the end (cut, closing bracket lost, stray character):
+    the scanner has read a long valid prefix when it meets the fault"""
+    texts = []
+    for _ in range(24):
+        nb = rng.randint(26, 60)
+        names = rng.sample(range(0, 1000), nb + rng.randint(0, 12))
+        buckets = [[x] for x in names[:nb]]
+        for x in names[nb:]:
+            buckets[rng.randrange(nb)].append(x)
+        if rng.random() < 0.4:
+            buckets = [[f"n{x}" for x in b] for b in buckets]
+        t = text_of(buckets, rng.choice(["brace", "bracket"]), rng)
+        how = rng.choice(["cut", "cut", "no-closing", "stray", "valid", "blanks"])
+        if how == "cut":
+            t = t[:len(t) - rng.randint(1, 12)]
+        elif how == "no-closing":
+            i = t.rstrip("]").rfind("]" if "]" in t[:-1] else "}")
+            t = t[:i] + t[i + 1:]
+        elif how == "stray":
+            i = rng.randint(len(t) - 6, len(t))
+            t = t[:i] + rng.choice(["[", "{", ",", ":", "x"]) + t[i:]
+        elif how == "blanks":
+            t = t.replace(",", " ,  ")[:len(t) + rng.randint(0, 40)]
+        texts.append((how, t))
+    return texts
+
+
+def run_long_texts(spec, ctx):
+    rng = random.Random(f"{spec['seed']}/C18/long-texts/{spec['shard']}")
+    items = long_malformed_texts(rng)
+    case = {"kind": "hang-probe", "texts": [t for _, t in items]}
+    ctx.begin(case)
+    check_case(case, ctx)
+    ctx.end()
+
+
 def run_shard(spec, ctx):
     if spec.get("kind") == "atheris":
         run_atheris(spec, ctx)
     else:
         from vf import core
+        run_long_texts(spec, ctx)
         core.default_run_shard(sys.modules[__name__], spec, ctx)
 
 
@@ -236,6 +324,26 @@ def typed(raw_ranking):
 def check_case(case, ctx):
     common.set_case(ctx, case)
     kind = case["kind"]
+    if kind == "hang-probe":
+        texts = case["texts"]
+        outcomes, hung, rc = probe_texts(texts, ctx.spec["repo"])
+        if hung is not None:
+            ctx.violation("C18/parser-does-not-return", f"parsing {texts[hung]!r} ({texts[hung].count(',')} commas) had not "
+                          f"returned after {PROBE_TIMEOUT_S} s in a separate interpreter (the {len(outcomes)} texts before it "
+                          "took less than that together)", {"kind": "hang-probe", "texts": [texts[hung]]})
+            return
+        if len(outcomes) != len(texts):
+            ctx.error(f"hang probe: {len(outcomes)} of {len(texts)} texts reported, exit code {rc}")
+            return
+        for i, o in sorted(outcomes.items()):
+            ctx.count("long_damaged_texts")
+            ctx.count("long_damaged_texts:" + o.get("from_string", "?"))
+            for label, res in o.items():
+                if res not in ("ok", "ValueError"):
+                    ctx.violation(f"C18/parser-raises-{res}", f"{label}({texts[i]!r}) raised {res} (only ValueError is a "
+                                  "documented refusal)", {"kind": "hang-probe", "texts": [texts[i]]})
+        ctx.nontrivial(case)
+        return
     if kind == "roundtrip":
         rng = random.Random(case["seed"])
         r = case["ranking"]
@@ -410,6 +518,8 @@ def reach(counters, tier, info):
                             ("... whose names contain blanks", "file_round_trips_long_lines:phrases", 15 * k),
                             ("file round trips of datasets containing an empty ranking",
                              "file_round_trips_with_empty_ranking", 100 * k),
+                            ("damaged texts of 26-60 buckets parsed by a separate interpreter under a wall-clock bound", "long_damaged_texts", 8 * 24 if tier == "quick" else 14 * 24),
+                            ("... rejected with ValueError", "long_damaged_texts:ValueError", 60),
                             ("texts parsed", "parsed", 1000 * k), ("texts rejected with ValueError", "rejected", 3000 * k)] + \
             ([("atheris executions", "atheris_executions", 500000)] if tier == "thorough" else []):
         v = counters.get(key, 0)
